@@ -41,6 +41,7 @@ type attOpts struct {
 	finAtEnd  bool
 	grouped   bool // all 0x1211 first, then the data of all files interleaved, then the 0x1212s
 	holes     int  // >0: one file of 2*holes+1 bytes sent byte by byte, every second byte withheld: that many gaps
+	sparse    int  // >0: one file announced with this size of which only a few packets ever arrive: very long gaps
 }
 
 // fileName draws a file name valid on the wire for the dialect (no NUL, fits the chunk header).
@@ -97,7 +98,7 @@ func (g *genCtx) genUpload(ci int, o attOpts) {
 	dialect := p.Att.Dialect
 	used := map[string]bool{}
 	nfiles := 1 + g.r.intn(o.maxFiles)
-	if o.holes > 0 {
+	if o.holes > 0 || o.sparse > 0 {
 		nfiles = 1
 	}
 	var files []UpFile
@@ -139,6 +140,9 @@ func (g *genCtx) genUpload(ci int, o attOpts) {
 		}
 		if o.holes > 0 {
 			size = 2*o.holes + 1
+		}
+		if o.sparse > 0 {
+			size = o.sparse
 		}
 		data := g.r.bytes(size)
 		if o.holes == 0 && g.r.chance(20) && size > 8 {
@@ -196,6 +200,17 @@ func (g *genCtx) genUpload(ci int, o attOpts) {
 			chunks = chunks[:0]
 			for off := 0; off < len(f.Data); off++ {
 				chunks = append(chunks, ch{off, 1})
+			}
+		}
+		if o.sparse > 0 {
+			// a few packets at scattered offsets; the long stretches between them never arrive
+			chunks = chunks[:0]
+			k := 1 + g.r.intn(3)
+			step := len(f.Data) / k
+			for i := 0; i < k; i++ {
+				n := 1 + g.r.intn(1000)
+				off := i*step + g.r.intn(step-n)
+				chunks = append(chunks, ch{off, n})
 			}
 		}
 		// arrival order permuted
